@@ -179,7 +179,7 @@ func c09R1(c *Ctx) {
 		}
 		n := 0
 		for _, pc := range calls {
-			if p, isParam := pc.Common().Args[1].(*ssa.Parameter); isParam && p.Name() == "records" {
+			if pc.Common().Args[1] == argParam(fn, 1) {
 				continue
 			}
 			n++
